@@ -187,3 +187,18 @@ Proof.
   exists [Added 1%nat; RunAcquire; AddedOther; RemovedOther; RunRelease]. eexists.
   split; [vm_compute; reflexivity|]. cbn. repeat split; congruence.
 Qed.
+
+(* the correspondence (Run.v) folds [code_step]; on everything the environment
+   can do this is the transition relation the theorems are about *)
+Lemma run_fold : forall acts s s', run s acts = Some s' -> fold_left code_step acts s = s'.
+Proof.
+  induction acts as [|a acts IH]; intros s s' H; cbn in *.
+  - congruence.
+  - unfold step in H. destruct (env_ok s a); [|discriminate]. apply IH, H.
+Qed.
+
+Lemma drain_fold s :
+  exists s', run s (drain_actions s) = Some s' /\ fold_left code_step (drain_actions s) s = s' /\ quiescent s' = true.
+Proof.
+  destruct (drain_quiesces s) as [s' [R [Q _]]]. exists s'. split; [exact R|]. split; [apply run_fold, R|exact Q].
+Qed.
